@@ -55,6 +55,7 @@ def run(rep, tier, seed):
     ecases = G.edit_build_cases(rng.fork(), tier)
     s1 += bcases + ecases
     s1 += G.edit_garbage_cases(rng.fork(), tier)
+    shuffle(rng.fork(), s1)          # spread the expensive cases over the shards
     c1 = both(s1, 's1')
 
     built_batches = []; built_edits = []
@@ -132,11 +133,12 @@ def run(rep, tier, seed):
             oracle(o == exp, k, line, o, exp)
         elif k in ('import_garbage', 'roundtrip_garbage'):
             check_import(oracle, k, line, o, m['enc'])
-    for i in (0, len(ecases) // 2):
+    for i in (len(ecases) // 3, len(ecases) // 2):
         rep.sample({'case': ecases[i][0]})
 
     # ------------------------------------------------------------ stage 2 (derived from the implementation's bytes)
     s2 = G.batch_followups(rng.fork(), tier, built_batches) + G.edit_followups(rng.fork(), tier, built_edits)
+    shuffle(rng.fork(), s2)
     c2 = both(s2, 's2')
     for (line, m), o in zip(s2, c2):
         if skip(o):
@@ -186,6 +188,10 @@ def run(rep, tier, seed):
     rep.assumptions += ['internal-key comparator checked with the bytewise user comparator only (custom comparators are user code)',
                         'batch iterate compares found and count as C ints; the model compares naturals (equal for fewer than 2^31 records)',
                         'independent decoder: checks/metagen.py (Python, written from the LevelDB format description)']
+
+def shuffle(rng, l):
+    for i in range(len(l) - 1, 0, -1):
+        j = rng.below(i + 1); l[i], l[j] = l[j], l[i]
 
 def check_import(oracle, k, line, o, enc):
     e = G.decode_edit(enc)
